@@ -589,9 +589,13 @@ NonRel(out) == SelectSeq(out, LAMBDA e : e.ev # "released")
 SameEvents(a, b) == NonRel(a) = NonRel(b) /\ RelSet(a) = RelSet(b)
 
 ViolC10(g, prev, r, g2) ==
-  (IF r.shadow = "fresh" /\ g2.newSess /\ ~r.panic /\ ~SameEvents(r.out, r.outF)
+  LET (* a new session has started on this connection, or this very call is the CONNECT that asks for one
+         (compared even when the reused object refuses it) *)
+      fresh == r.shadow = "fresh" /\ (g2.newSess \/ ((IsSend(r, {"connect"}) \/ IsRecv(r, {"connect"})) /\ CP(r).clean))
+  IN
+  (IF fresh /\ ~r.panic /\ ~SameEvents(r.out, r.outF)
    THEN {"C10-reused-object-differs-from-fresh"} ELSE {})
-  \cup (IF r.shadow = "fresh" /\ g2.newSess /\ ~r.panic /\ (r.obs.vacancy # r.obsF.vacancy \/ r.obs.stored # r.obsF.stored \/ r.obs.qos2 # r.obsF.qos2)
+  \cup (IF fresh /\ ~r.panic /\ (r.obs.vacancy # r.obsF.vacancy \/ r.obs.stored # r.obsF.stored \/ r.obs.qos2 # r.obsF.qos2)
         THEN {"C10-reused-object-getters-differ"} ELSE {})
   \cup (IF Op(r) \in {"closed", "crash"} /\ ~r.panic /\ (g2.armed # {} \/ g2.sub # {} \/ g2.unsub # {}) THEN {"C10-left-over-after-close"} ELSE {})
 
